@@ -20,19 +20,22 @@
   memory with the chosen start context, so every call stack of the state is a walk by construction.
   The copy rules (system info, LSB, macOS crash info, …) are in `MdModel.IndexCopy`.
 
-  A dump is described abstractly (`Dump`). A context is "readable with registers ip/sp/fp" or
-  "unreadable" (what `MinidumpContext::read(..).ok()` yields); symbols are absent (the engine
-  uses an empty symbol supplier), so walking is frame-pointer + scan. Names are what
-  `read_string_utf16` yields (`none` = unreadable or not well-formed UTF-16; the protocol layer
-  decodes the code units with C01's `utf16Decode`). Memory is little-endian in `MdModel.Walk`:
-  a BIG-endian dump whose walk would read stack memory is answered `unmodelled` (the engine
-  generates big-endian dumps for the CPUs that have no unwinder, or without stack memory).
+  A dump is described abstractly (`Dump`). A context is "readable with these register values" or
+  "unreadable" (what `MinidumpContext::read(..).ok()` yields): ip / sp / frame pointer and any
+  other general-purpose registers (`Regs.rest`; a register not listed is 0). The symbol supplier is
+  part of the description (`Dump.syms`: per module NAME the FUNC / PUBLIC / STACK CFI records and
+  the STACK WIN records of its symbol file), so walks use CFI / STACK WIN where records exist and
+  frames carry the function `fill_symbol` finds. Names are what `read_string_utf16` yields
+  (`none` = unreadable or not well-formed UTF-16; the protocol layer decodes the code units with
+  C01's `utf16Decode`). A BIG-endian dump's stack memory is read big-endian
+  (`MinidumpMemoryBase::get_memory_at_address` uses the dump's byte order): `walkMem` hands the
+  walker model a `Mem` with `be := d.bigEndian`.
 -/
 import MdModel.Prelude
 import MdModel.RangeMap
 import MdModel.Reason
 import MdModel.Dump
-import MdModel.Walk.Proto
+import MdModel.Walk
 import MdModel.IndexCopy
 namespace MdModel.Index
 open MdModel
@@ -40,11 +43,13 @@ open MdModel.Reason (Exc Reason Os Cpu)
 open MdModel.Gen
 open MdModel.Walk (Mem)
 
-/-- the registers of a context record the walk without symbols depends on -/
+/-- the registers of a context record: instruction pointer, stack pointer, frame pointer, and
+    the other general-purpose registers by canonical name (a register not listed is 0) -/
 structure Regs where
   ip : Nat
   sp : Nat := 0
   fp : Nat := 0
+  rest : List (String × Nat) := []
   deriving Repr, DecidableEq
 
 /-- `MINIDUMP_THREAD.stack` as `MinidumpMemory::read` sees it -/
@@ -132,6 +137,9 @@ structure Dump where
   bootArgs : Option (Option String) := none
   /-- number of descriptors of a readable handle-data stream -/
   handles : Option Nat := none
+  /-- what the symbol supplier has, keyed by module name (`module.code_file()`): the FUNC / PUBLIC /
+      STACK CFI records and the STACK WIN records of the module's symbol file -/
+  syms : List (String × Walk.SymFile × List Win.Rec) := []
 
 inductive Info where
   | ok | missingContext | dumpThreadSkipped
@@ -356,32 +364,44 @@ def fpName : Walk.Arch → String
   | .amd64 => "rbp"
   | _ => "fp"
 
-/-- `MinidumpContext::from_raw`: all registers valid; registers other than ip/sp/fp are not
-    looked at by the frame-pointer and scan unwinders -/
+/-- `MinidumpContext::from_raw`: all registers valid, with the values of the context record -/
 def toCtx (arch : Nat) (r : Regs) : Walk.Ctx :=
   { ip := r.ip, sp := r.sp,
     rest := match unwinderOf arch with
-      | some a => [(fpName a, r.fp)]
+      | some a => (fpName a, r.fp) :: r.rest
       | none => [],
     valid := none }
 
 def toModule (m : Mod) : Walk.Module := { base := m.base, size := m.size, name := m.name }
 
-/-- the loaded modules as the walker sees them; the symbol supplier has no file for any of them -/
-def worldOf (ms : List Mod) : Walk.World := { mods := ms.map toModule, syms := ms.map fun _ => none }
+/-- the loaded modules as the walker sees them, each with the symbol file the supplier has under
+    its name (if any) -/
+def worldOf (d : Dump) : Walk.World :=
+  { mods := (loadedModules d).map toModule,
+    syms := (loadedModules d).map fun m => (d.syms.lookup m.name).map (·.1) }
 
-/-- the stack memory the unwinders can use: none on a CPU without an unwinder -/
-def walkMem (arch : Nat) (sel : Option Mem) : Option Mem :=
-  if (unwinderOf arch).isSome then sel else none
+/-- the STACK WIN records of the loaded modules' symbol files, by module position -/
+def winsOf (d : Dump) : List (List Win.Rec) :=
+  (loadedModules d).map fun m => ((d.syms.lookup m.name).map (·.2)).getD []
 
-/-- the environment of a walk of this dump -/
+/-- the stack memory the unwinders can use: none on a CPU without an unwinder; read in the dump's
+    byte order (`MinidumpMemory.endian` is the dump's) -/
+def walkMem (d : Dump) (sel : Option Mem) : Option Mem :=
+  if (unwinderOf d.arch).isSome then sel.map fun m => { m with be := d.bigEndian } else none
+
+/-- the environment of a walk of this dump: `Walk.mkEnv` (the environment of engine `walk` and of
+    C05 / C04's single-technique theorems) unless some symbol file has STACK WIN records, then
+    `Walk.mkEnvW` (the environment of engine `chain` and of C04's STACK WIN / mixed theorems) -/
 def envOf (d : Dump) (sel : Option Mem) : Walk.Env :=
-  Walk.mkEnv ((unwinderOf d.arch).getD .x86) (walkOs (Os.ofPlatformId d.platformId))
-    (worldOf (loadedModules d)) ((walkMem d.arch sel).getD { base := 0, bytes := #[] })
+  let arch := (unwinderOf d.arch).getD .x86
+  let os := walkOs (Os.ofPlatformId d.platformId)
+  let mem := (walkMem d sel).getD { base := 0, bytes := #[] }
+  if Walk.noWins (winsOf d) then Walk.mkEnv arch os (worldOf d) mem
+  else Walk.mkEnvW arch os (worldOf d) (winsOf d) mem
 
 /-- `walk_stack` on `[StackFrame::from_context(ctx, Context)]` with the selected memory -/
 def framesOf (d : Dump) (sel : Option Mem) (c : Walk.Ctx) : List Walk.Frame :=
-  Walk.walk (envOf d sel) (walkMem d.arch sel) c
+  Walk.walk (envOf d sel) (walkMem d sel) c
 
 /-! ### into_process_state -/
 
@@ -457,13 +477,7 @@ def attachStack (ums : List Mod) (s : PreStack) : Option Stack :=
 inductive Result where
   | missingThreadList
   | panic
-  /-- a big-endian dump whose walk would read stack memory: outside this model -/
-  | unmodelled
   | state (s : State)
-
-/-- a walk of this dump would read memory through the (little-endian) walker model -/
-def walksMemory (d : Dump) (ss : List PreStack) : Bool :=
-  ss.any fun s => !s.frames.isEmpty && (walkMem d.arch s.sel).isSome
 
 /-- `process_minidump` as far as C14 observes it. -/
 def index (d : Dump) : Result :=
@@ -477,43 +491,44 @@ def index (d : Dump) : Result :=
     if !(tableOk (modEntries ms) && tableOk (memEntries (memoryList d))) then .panic
     else
       let (stacks, req) := loop d 0 ts none
-      if d.bigEndian && walksMemory d stacks then .unmodelled
-      else
-        match optMap (attachStack ums) stacks with
-        | none => .panic
-        | some stacks =>
-          .state {
-            stacks := stacks
-            requesting := req
-            exc := d.exc.map fun (e, _) => (Reason.fromException e os cpu, Reason.crashAddress e os cpu)
-            pid := processId d
-            ctime := createTime d
-            time := d.timestamp
-            modules := ms
-            unloaded := ums
-            sys := sysInfo d.platformId d.arch d.sys
-            lsb := d.lsb.map lsbOf
-            macCrash := macCrashInfo d.macCrash
-            bootArgs := d.bootArgs
-            assertion := none
-            certs := []
-            handles := d.handles }
+      match optMap (attachStack ums) stacks with
+      | none => .panic
+      | some stacks =>
+        .state {
+          stacks := stacks
+          requesting := req
+          exc := d.exc.map fun (e, _) => (Reason.fromException e os cpu, Reason.crashAddress e os cpu)
+          pid := processId d
+          ctime := createTime d
+          time := d.timestamp
+          modules := ms
+          unloaded := ums
+          sys := sysInfo d.platformId d.arch d.sys
+          lsb := d.lsb.map lsbOf
+          macCrash := macCrashInfo d.macCrash
+          bootArgs := d.bootArgs
+          assertion := none
+          certs := []
+          handles := d.handles }
 
 /-! ### line protocol
   request (fields `key=value`; the first eleven in this order, numbers decimal; the others optional,
   in any order, each at most once):
     `index ts=<u32> os=<platform id> cpu=<arch> th=<T> nm=<N> bp=<B> ex=<E> mi=<M> st=<S> mo=<L> um=<L>`
           `[rg=<R>] [en=<le|be>] [ml=<ML>] [si=<SI>] [lsb=<S'>] [mac=<MC>] [ba=<BA>] [hd=<n ≥ 1>] [ps=<mask>]`
+          `[sy=<SY>] [sw=<SW>]`
     (`rg` first when present; `ps` = bit mask of streams that are present but not consulted:
      1 thread-info list, 2 Crashpad info, 4 assertion info, 8 memory-info list)
     T  = `-` (no thread list) | `.` (empty) | `id:ctx[:stk],..`
-         ctx = `r<ip>` | `r<ip>/<sp>/<fp>` | `u<mode>`
+         ctx = `r<ip>` | `r<ip>/<sp>/<fp>[/<reg>=<value>]*` | `u<mode>`   (reg: a canonical register name of
+               the CPU's context other than ip / sp / frame pointer, each at most once)
          stk = `<start>/n` (descriptor rva 0) | `<start>/o` (outside the file) | `<start>/m<k>` (cites the
                bytes of pool region k)
     N  = `-`/`.` | `id:name,..`   name = `!` unreadable | ASCII token | `x<hex of UTF-16 code units>`
     B  = `-` | `validity:dump:req`
     E  = `-` | `x` (unreadable stream) | `tid:code:flags:addr:np:p0:p1:p2:ctx`
-    M  = `-` | `x` | `flags:pid:ctime:version`
+    M  = `-` | `x` | `flags:pid:ctime:version[:size_of_info]`   (the 5th item: what the stream's own
+         size field says when that is not the struct's size — untrusted, not consulted)
     S  = `-` | `.` | `Key~value,..`
     L  = `.` | `base:size:name,..`          (name as above)
     R  = pool of memory regions `base/size[/off.hexbytes]*,..` (zero-filled, then patched)
@@ -523,11 +538,16 @@ def index (d : Dump) : Result :=
     S' = `.` | `KEY~x<hex utf8>,..`
     MC = `.` | `version/thread/dialog/abort/<s0>/../<s4>,..`   (strings `x<hex utf8>`)
     BA = `!` (string unreadable) | name as above
+    SY = `<module name>~<records>,..`  symbol files of the supplier; records as in `walk` requests
+         (`F|addr|size|psize|name;P|..;C|addr|size|rules;A|addr|rules`)
+    SW = `<module name>~<rec>;<rec>..,..`  their STACK WIN records, `rec` as in `chain` requests
+         (`ty|addr|size|par|sav|loc|hp|rest`); a module named here and not in SY has a symbol file
+         without FUNC / PUBLIC / STACK CFI records
   answer:
     `threads:id/name/info/<frame>^<frame>..;.. req:i exc:Reason addr:n pid:n ctime:n time:n mods:b:s:n,.. umods:..`
     ` sys:<osver>/<osbuild>/<cpuinfo>/<ncpu> lsb:.. mac:.. ba:.. as:- certs:0 hd:..`
-    | `err:MissingThreadList` | `PANIC` | `unmodelled`
-    frame = `trust|ip=..|in=..|sp=..|m=<idx|->|f=-|v=<all|r=v,..>|u=name=off+off&..`
+    | `err:MissingThreadList` | `PANIC`
+    frame = `trust|ip=..|in=..|sp=..|m=<idx|->|f=<name@base/psize|->|v=<all|r=v,..>|u=name=off+off&..`
     names: ASCII tokens not starting with `x` as they are, everything else `x<hex utf8>`
 -/
 namespace Parse
@@ -543,13 +563,35 @@ def ctx32 (arch : Nat) : Bool :=
   | some "PROCESSOR_ARCHITECTURE_PPC" | some "PROCESSOR_ARCHITECTURE_ARM" => true
   | _ => false
 
+/-- `<reg>=<value>` items of a context: canonical register names of the CPU's context other than
+    ip / sp / frame pointer, pairwise distinct, values within the register width -/
+def ctxRest (arch : Nat) (lim : Nat) (items : List String) : Option (List (String × Nat)) :=
+  match unwinderOf arch with
+  | none => if items.isEmpty then some [] else none
+  | some a =>
+    items.foldlM (fun (acc : List (String × Nat)) it =>
+      match it.splitOn "=" with
+      | [n, v] =>
+        match optNat v with
+        | some v =>
+          if a.registers.contains n ∧ n ≠ a.ipName ∧ n ≠ a.spName ∧ n ≠ fpName a ∧ v ≤ lim ∧
+             !(acc.any fun e => e.1 == n) then some (acc ++ [(n, v)]) else none
+        | none => none
+      | _ => none) []
+
 def ctx (arch : Nat) (s : String) : Option (Option Regs) :=
   if s.startsWith "r" then
     let lim := if ctx32 arch then U32MAX else U64MAX
-    match ((s.drop 1).toString.splitOn "/").map optNat with
-    | [some ip] => if ip ≤ lim then some (some { ip := ip }) else none
-    | [some ip, some sp, some fp] =>
-      if ip ≤ lim ∧ sp ≤ lim ∧ fp ≤ lim then some (some { ip := ip, sp := sp, fp := fp }) else none
+    match (s.drop 1).toString.splitOn "/" with
+    | [ip] =>
+      match optNat ip with
+      | some ip => if ip ≤ lim then some (some { ip := ip }) else none
+      | none => none
+    | ip :: sp :: fp :: more =>
+      match optNat ip, optNat sp, optNat fp, ctxRest arch lim more with
+      | some ip, some sp, some fp, some rest =>
+        if ip ≤ lim ∧ sp ≤ lim ∧ fp ≤ lim then some (some { ip := ip, sp := sp, fp := fp, rest := rest }) else none
+      | _, _, _, _ => none
     | _ => none
   else if s.startsWith "u" then (optNat (s.drop 1).toString).map fun _ => none
   else none
@@ -662,6 +704,9 @@ def misc (s : String) : Option (Option Misc) :=
   if s == "-" || s == "x" then some none else
   match (s.splitOn ":").map optNat with
   | [some f, some p, some c, some _ver] => some (some ⟨f, p, c⟩)
+  -- the stream's own `size_of_info` field when it is not the struct's size: not consulted by
+  -- `MinidumpMiscInfo::read` (the stream length selects the revision), so not by the model either
+  | [some f, some p, some c, some _ver, some soi] => if soi ≤ U32MAX then some (some ⟨f, p, c⟩) else none
   | _ => none
 
 structure MemLists where
@@ -723,6 +768,19 @@ structure Extra where
   hd : Option Nat := none
   /-- streams that are present without being consulted (bit mask; no influence on the state) -/
   ps : Option Nat := none
+  sy : Option (List (String × Walk.SymFile)) := none
+  sw : Option (List (String × List Win.Rec)) := none
+
+/-- `<module name>~<body>`: the name is an ASCII token -/
+def named {α} (body : String → Option α) (s : String) : Option (String × α) :=
+  match s.splitOn "~" with
+  | [n, b] => if !n.isEmpty && n.toList.all isTokenChar then (body b).map fun x => (n, x) else none
+  | _ => none
+
+def winRecs (s : String) : Option (List Win.Rec) := (pieces s ";").mapM Walk.parseWinRec
+
+/-- names at most once -/
+def distinctNames {α} (l : List (String × α)) : Bool := (l.map (·.1)).eraseDups.length == l.length
 
 def extra (acc : Extra) (tok : String) : Option Extra :=
   if let some v := kv tok "en" then
@@ -746,7 +804,21 @@ def extra (acc : Extra) (tok : String) : Option Extra :=
       | _ => none
   else if let some v := kv tok "ps" then
     if acc.ps.isSome then none else (optNat v).map fun r => { acc with ps := some r }
+  else if let some v := kv tok "sy" then
+    if acc.sy.isSome then none
+    else ((v.splitOn ",").mapM (named Walk.parseRecords)).bind fun r =>
+      if distinctNames r then some { acc with sy := some r } else none
+  else if let some v := kv tok "sw" then
+    if acc.sw.isSome then none
+    else ((v.splitOn ",").mapM (named winRecs)).bind fun r =>
+      if distinctNames r then some { acc with sw := some r } else none
   else none
+
+/-- the supplier's symbol files: the modules of `sy`, then those that only `sw` names -/
+def symFiles (sy : List (String × Walk.SymFile)) (sw : List (String × List Win.Rec)) :
+    List (String × Walk.SymFile × List Win.Rec) :=
+  (sy.map fun (n, sf) => (n, sf, (sw.lookup n).getD [])) ++
+  (sw.filter fun (n, _) => (sy.lookup n).isNone).map fun (n, w) => (n, ({} : Walk.SymFile), w)
 
 def dump (args : List String) : Option Dump :=
   match args with
@@ -779,7 +851,8 @@ def dump (args : List String) : Option Dump :=
     pure { platformId := os, arch := cpu, timestamp := ts, threads := threads, names := names,
            breakpad := bp, exc := ex, misc := mi, status := status, modules := mo, unloaded := um,
            bigEndian := x.en.getD false, memList := ml.memList, mem64 := ml.mem64,
-           sys := x.si.getD {}, lsb := x.lsb, macCrash := x.mac, bootArgs := x.ba, handles := x.hd }
+           sys := x.si.getD {}, lsb := x.lsb, macCrash := x.mac, bootArgs := x.ba, handles := x.hd,
+           syms := symFiles (x.sy.getD []) (x.sw.getD []) }
   | _ => none
 
 end Parse
@@ -839,7 +912,6 @@ def renderBoot (b : Option (Option String)) : String :=
 def render (arch : Nat) : Result → String
   | .missingThreadList => "err:MissingThreadList"
   | .panic => "PANIC"
-  | .unmodelled => "unmodelled"
   | .state s =>
     let exc := match s.exc with
       | some (r, a) => s!"exc:{r.render} addr:{a}"
